@@ -16,3 +16,20 @@ Print Assumptions C14_rpm_version_source_is_the_model.
 Theorem C14_apk_version_source_is_the_model : forall i arch, src_apk_pkgver i arch = apk_version i.
 Proof. exact src_apk_pkgver_is_model. Qed.
 Print Assumptions C14_apk_version_source_is_the_model.
+
+(* ---- nfpm.WithDefaults and Info.parseSemver, translated from nfpm.go on every run (Gen/WithDefaults.v) ---- *)
+From NfpmV Require Import Model.Version Proofs.WithDefaultsProofs Gen.WithDefaults.
+
+(* For every schema, version, prerelease, metadata, platform and description: what the SOURCE's WithDefaults leaves in
+   those fields - the default version, nothing touched under schema "none", the parsed numbers with explicit prerelease
+   and metadata winning over embedded ones otherwise, "linux" and "no description given" for empty platform and
+   description - is the model's split_version / dflt, the functions the theorems of Properties/C14.v and the checker
+   check_split are stated over. semver.NewVersion is the model's semver_parse on both sides (hand-modelled, compared
+   with the library on every generated version). *)
+Theorem C14_with_defaults_source_is_the_model : forall schema v pre meta plat desc,
+  src_parseSemver_translated && src_WithDefaults_translated = true /\
+  src_WithDefaults schema v pre meta plat desc =
+  (let '(v', pre', meta') := split_version schema v pre meta in
+   (v', pre', meta', dflt plat (B "linux"), dflt desc (B "no description given"))).
+Proof. intros. split; [exact with_defaults_translated | apply src_WithDefaults_is_model]. Qed.
+Print Assumptions C14_with_defaults_source_is_the_model.
